@@ -43,6 +43,10 @@ type Location struct {
 	// rule's "disabled" property in more than one step.
 	enableMutex sync.Mutex
 
+	// addMutex serializes the adds that check the capacity first:
+	// otherwise concurrent adds all find room and then all add.
+	addMutex sync.Mutex
+
 	// Provider is required when using parent locations.  Must be
 	// set when the Location is created and then left unchanged.
 	//
@@ -172,7 +176,7 @@ func NewLocation(ctx *Context, name string, state State, ctrl *Control) (*Locati
 
 	// ToDo: CacheExpires default duration.
 	// loc := Location{sync.RWMutex{}, name, false, nil, ctrl, state, ServiceStats{}, false}
-	loc := Location{sync.RWMutex{}, name, false, nil, ctrl, state, 0, ServiceStats{}, false, "", sync.RWMutex{}, sync.Mutex{}, nil}
+	loc := Location{sync.RWMutex{}, name, false, nil, ctrl, state, 0, ServiceStats{}, false, "", sync.RWMutex{}, sync.Mutex{}, sync.Mutex{}, nil}
 
 	return &loc, loc.init(ctx)
 }
@@ -341,6 +345,8 @@ func (loc *Location) AddRule(ctx *Context, id string, rule Map) (string, error) 
 	timer := NewTimer(ctx, "AddRule")
 	Inc(&loc.stats.TotalCalls, 1)
 	var err error
+	loc.addMutex.Lock()
+	defer loc.addMutex.Unlock()
 	if loc.AtCapacity(ctx) {
 		max := loc.Control().MaxFacts
 		err = fmt.Errorf("Location state capacity limit reached (%d)", max)
@@ -487,6 +493,8 @@ func (loc *Location) AddFact(ctx *Context, id string, fact Map) (string, error) 
 	if err := loc.CheckWrite(ctx); err != nil {
 		return "", err
 	}
+	loc.addMutex.Lock()
+	defer loc.addMutex.Unlock()
 	if loc.AtCapacity(ctx) {
 		max := loc.Control().MaxFacts
 		err := fmt.Errorf("Location state capacity limit reached (%d)", max)
